@@ -208,6 +208,7 @@ def history(o1: int, s1: int, e1: int, o2: int, s2: int, e2: int, o3: int, s3: i
     pre: 0 <= of < 2 and 0 <= sf < NS
     post: _
     """
+    xs.path_start()
     fns = setup()
     steps = [(o1, s1, e1), (o2, s2, e2), (o3, s3, e3)][:STEPS]
     conc = []
@@ -245,6 +246,7 @@ def twins(idx: int, swapped: bool) -> bool:
     pre: 0 <= idx < len(TWINS)
     post: _
     """
+    xs.path_start()
     fns = setup()
     idx = xs.pick(idx, 0, len(TWINS))
     op, a, b = TWINS[idx]
@@ -286,6 +288,7 @@ def resolve_edit(s1: int, s2: int, kind: int) -> bool:
     pre: 0 <= s1 < len(RES_STRINGS) and 0 <= s2 < len(RES_STRINGS) and 0 <= kind < 4
     post: _
     """
+    xs.path_start()
     # a caller resolves an expression (time conditions replaced) and then edits EVERY node of the tree it got; resolving
     # any expression afterwards must give what it gave before
     setup()
@@ -326,6 +329,7 @@ def eviction(a: int, b: int, c: int, d: int, ea: int, eb: int, ec: int) -> bool:
     pre: 0 <= ea < 3 and 0 <= eb < 3 and 0 <= ec < 3
     post: _
     """
+    xs.path_start()
     # scaled-down cache (maxsize 2) with three distinct strings: hits, misses and evictions within four calls
     fns = setup()
     seq = [xs.pick(x, 0, 3) for x in (a, b, c, d)]
